@@ -307,18 +307,69 @@ class SumTerm:
 
 
 def np_sum(ctx, n, body, name='sum'):
-    """Uninterpreted sum over range(n) of body(k): fresh real + registry (extensionality is
-    applied when two sums are compared, see Interp.sum_equalities)."""
+    """Uninterpreted sum over range(n) of body(k): fresh real + registry.  Facts about it are the
+    Lean lemmas of lean/OmLemmas.lean (extensionality, homogeneity, bounds), applied when their
+    side conditions are proved by a small solver query here."""
     s = ctx.fresh(name, RealS)
-    ctx.ghost.setdefault('sums', []).append(SumTerm(n, MF(body), s))
-    # facts usable by SMT: empty sum is zero; one-term sum
+    mbody = MF(body)
+    ctx.ghost.setdefault('sums', []).append(SumTerm(n, mbody, s))
     nz = tz(n)
-    k0 = z3.IntVal(0)
     ctx.assume(z3.Implies(nz == 0, s == 0))
-    b0 = body(k0)
+    b0 = mbody(z3.IntVal(0))
     if not isinstance(b0, Cx):
         ctx.assume(z3.Implies(nz == 1, s == tz(b0)))
+    if ctx.frozen_iterms or isinstance(b0, Cx):
+        return s
+    # OmLemmas.sum_unit_interval: terms in [0,1] with one term equal to 1  =>  1 <= sum <= n
+    q = ctx.fresh('sq', IntS)
+    ctx.add_iterm(q)
+    try:
+        bq = tz(mbody(q))
+    except Unsupported:
+        return s
+    rng = z3.And(q >= 0, q < nz)
+    if ctx.entails(z3.Implies(rng, bq >= 0), 2000):
+        ctx.assume(s >= 0)                                        # sum of non-negative terms
+        if ctx.entails(z3.Implies(rng, bq <= 1), 2000):
+            ctx.assume(s <= (z3.ToReal(nz) if z3.is_int(nz) else nz))
+            for w in list(ctx.iterms):
+                if w is q:
+                    continue
+                try:
+                    bw = tz(mbody(w))
+                except Unsupported:
+                    continue
+                if ctx.entails(z3.And(w >= 0, w < nz, bw == 1), 2000):
+                    ctx.assume(s >= 1)
+                    break
     return s
+
+
+def sum_bounds(ctx):
+    """Lean lemma OmLemmas.sum_unit_interval as a fact about every registered sum: terms in [0,1]
+    with one term equal to 1 (witness among the index terms in play) give 1 <= Sum <= n."""
+    facts = []
+    for sidx, sm in enumerate(ctx.ghost.get('sums', [])):
+        q = z3.Int('q!b%d' % sidx)
+        try:
+            bq = sm.body(q)
+        except Unsupported:
+            continue
+        if isinstance(bq, Cx):
+            continue
+        n = tz(sm.n)
+        unit = z3.ForAll([q], z3.Implies(z3.And(q >= 0, q < n), z3.And(tz(bq) >= 0, tz(bq) <= 1)))
+        wits = []
+        for t in list(ctx.iterms):
+            try:
+                bt = sm.body(t)
+            except Unsupported:
+                continue
+            wits.append(z3.And(t >= 0, t < n, tz(bt) == 1))
+        if not wits:
+            continue
+        facts.append(z3.Implies(z3.And(unit, z3.Or(*wits)), z3.And(sm.const >= 1, sm.const <= z3.ToReal(n) if z3.is_int(n) else sm.const <= n)))
+    return facts
 
 
 def sum_extensionality(ctx):
